@@ -119,3 +119,181 @@ pub fn decode_length(body: &[u8], n: usize) -> Decoded {
 pub fn decode_close(body: &[u8]) -> Decoded {
     Decoded { payload: body.to_vec(), end: End::Complete(body.len()) }
 }
+
+// ------------------------------------------------------------------------------------------------
+// Independent HTTP/1.1 request parser (RFC 9112 §3, §5, §6, §7.1) used as the oracle for C07/C10.
+
+#[derive(Clone, Debug)]
+pub struct ParsedRequest {
+    pub method: Vec<u8>,
+    pub target: Vec<u8>,
+    pub version: Vec<u8>,
+    /// (lower-case name, value) in wire order
+    pub headers: Vec<(String, Vec<u8>)>,
+    pub body: Vec<u8>,
+    /// "none" | "length" | "chunked"
+    pub framing: &'static str,
+    /// bytes left after exactly one request
+    pub leftover: Vec<u8>,
+    pub zero_chunks_before_end: usize,
+}
+
+pub fn parse_request(w: &[u8]) -> Result<ParsedRequest, String> {
+    let head_end = w.windows(4).position(|x| x == b"\r\n\r\n").ok_or("no blank line")?;
+    let head = &w[..head_end];
+    let mut lines = head.split(|&b| b == b'\n').map(|l| l.strip_suffix(b"\r").unwrap_or(l));
+    let rl = lines.next().ok_or("no request line")?;
+    let parts: Vec<&[u8]> = rl.split(|&b| b == b' ').collect();
+    if parts.len() != 3 || parts.iter().any(|p| p.is_empty()) {
+        return Err(format!("request line is not `method SP target SP version`: {:?}", String::from_utf8_lossy(rl)));
+    }
+    if !parts[0].iter().all(|&b| is_tchar(b)) {
+        return Err("method is not a token".into());
+    }
+    if parts[2] != b"HTTP/1.1" {
+        return Err("version is not HTTP/1.1".into());
+    }
+    let mut headers = vec![];
+    for l in lines {
+        let c = l.iter().position(|&b| b == b':').ok_or("field line without colon")?;
+        let name = &l[..c];
+        if name.is_empty() || !name.iter().all(|&b| is_tchar(b)) {
+            return Err(format!("field name is not a token: {:?}", String::from_utf8_lossy(name)));
+        }
+        let mut v = &l[c + 1..];
+        while let [b' ' | b'\t', rest @ ..] = v {
+            v = rest;
+        }
+        while let [rest @ .., b' ' | b'\t'] = v {
+            v = rest;
+        }
+        if v.iter().any(|&b| b == b'\r' || b == b'\n' || b == 0) {
+            return Err("field value contains CR/LF/NUL".into());
+        }
+        headers.push((String::from_utf8(name.to_ascii_lowercase()).unwrap(), v.to_vec()));
+    }
+    let rest = &w[head_end + 4..];
+    let cl: Vec<&Vec<u8>> = headers.iter().filter(|(n, _)| n == "content-length").map(|(_, v)| v).collect();
+    let te: Vec<&Vec<u8>> = headers.iter().filter(|(n, _)| n == "transfer-encoding").map(|(_, v)| v).collect();
+    if !cl.is_empty() && !te.is_empty() {
+        return Err("both Content-Length and Transfer-Encoding".into());
+    }
+    if cl.len() > 1 || te.len() > 1 {
+        return Err("repeated framing header".into());
+    }
+    let mut zero_before_end = 0;
+    let (body, framing, leftover) = if let Some(v) = te.first() {
+        if v.to_ascii_lowercase() != b"chunked" {
+            return Err("Transfer-Encoding is not exactly `chunked`".into());
+        }
+        // strict chunked: 1*HEXDIG CRLF data CRLF ... 0 CRLF CRLF
+        let mut b = rest;
+        let mut body = vec![];
+        loop {
+            let p = b.windows(2).position(|x| x == b"\r\n").ok_or("chunk size line not terminated")?;
+            let line = &b[..p];
+            if line.is_empty() || !line.iter().all(|c| c.is_ascii_hexdigit()) {
+                return Err(format!("bad chunk size line {:?}", String::from_utf8_lossy(line)));
+            }
+            let n = usize::from_str_radix(std::str::from_utf8(line).unwrap(), 16).map_err(|_| "chunk size overflow")?;
+            b = &b[p + 2..];
+            if n == 0 {
+                if b.len() < 2 || &b[..2] != b"\r\n" {
+                    return Err("last-chunk not followed by CRLF".into());
+                }
+                b = &b[2..];
+                break;
+            }
+            if b.len() < n + 2 || &b[n..n + 2] != b"\r\n" {
+                return Err("chunk data not followed by CRLF".into());
+            }
+            body.extend_from_slice(&b[..n]);
+            b = &b[n + 2..];
+        }
+        // anything that looks like a further last-chunk in the leftover is a premature terminator
+        if b.starts_with(b"0\r\n") || !b.is_empty() {
+            zero_before_end = 1;
+        }
+        (body, "chunked", b.to_vec())
+    } else if let Some(v) = cl.first() {
+        if v.is_empty() || !v.iter().all(|c| c.is_ascii_digit()) {
+            return Err("Content-Length is not 1*DIGIT".into());
+        }
+        let n: usize = std::str::from_utf8(v).unwrap().parse().map_err(|_| "Content-Length overflow")?;
+        if rest.len() < n {
+            return Err(format!("Content-Length {} but only {} body octets written", n, rest.len()));
+        }
+        (rest[..n].to_vec(), "length", rest[n..].to_vec())
+    } else {
+        (vec![], "none", rest.to_vec())
+    };
+    Ok(ParsedRequest {
+        method: parts[0].to_vec(),
+        target: parts[1].to_vec(),
+        version: parts[2].to_vec(),
+        headers,
+        body,
+        framing,
+        leftover,
+        zero_chunks_before_end: zero_before_end,
+    })
+}
+
+pub fn is_tchar(b: u8) -> bool {
+    b.is_ascii_alphanumeric() || b"!#$%&'*+-.^_`|~".contains(&b)
+}
+
+/// application/x-www-form-urlencoded decoding (WHATWG URL §5.1 / HTML): `&`-separated `k=v`, `+` is
+/// a space, `%XX` is a byte.
+pub fn form_decode(q: &[u8]) -> Vec<(Vec<u8>, Vec<u8>)> {
+    let pct = |s: &[u8]| -> Vec<u8> {
+        let mut out = vec![];
+        let mut i = 0;
+        while i < s.len() {
+            if s[i] == b'+' {
+                out.push(b' ');
+            } else if s[i] == b'%' && i + 3 <= s.len() {
+                match std::str::from_utf8(&s[i + 1..i + 3]).ok().and_then(|h| u8::from_str_radix(h, 16).ok()) {
+                    Some(v) => {
+                        out.push(v);
+                        i += 3;
+                        continue;
+                    }
+                    None => out.push(b'%'),
+                }
+            } else {
+                out.push(s[i]);
+            }
+            i += 1;
+        }
+        out
+    };
+    if q.is_empty() {
+        return vec![];
+    }
+    q.split(|&b| b == b'&')
+        .filter(|p| !p.is_empty())
+        .map(|p| match p.iter().position(|&b| b == b'=') {
+            Some(i) => (pct(&p[..i]), pct(&p[i + 1..])),
+            None => (pct(p), vec![]),
+        })
+        .collect()
+}
+
+/// RFC 4648 base64 (independent of the crate used by the library)
+pub fn b64(data: &[u8]) -> String {
+    const T: &[u8; 64] = b"ABCDEFGHIJKLMNOPQRSTUVWXYZabcdefghijklmnopqrstuvwxyz0123456789+/";
+    let mut out = String::new();
+    for c in data.chunks(3) {
+        let n = match c.len() {
+            3 => ((c[0] as u32) << 16) | ((c[1] as u32) << 8) | c[2] as u32,
+            2 => ((c[0] as u32) << 16) | ((c[1] as u32) << 8),
+            _ => (c[0] as u32) << 16,
+        };
+        out.push(T[(n >> 18) as usize & 63] as char);
+        out.push(T[(n >> 12) as usize & 63] as char);
+        out.push(if c.len() > 1 { T[(n >> 6) as usize & 63] as char } else { '=' });
+        out.push(if c.len() > 2 { T[n as usize & 63] as char } else { '=' });
+    }
+    out
+}
